@@ -177,6 +177,15 @@ def build_cond(c, V):
         return not_(inner) if c[1] == "not_" else ~inner
     if k == "forall":
         univ = build_term(c[3], V) if len(c) > 3 else V[c[1]]
+        if len(c) > 3 and c[3][0] == "flat":
+            # for_all(flatten(s.kids), c): inside c the universal variable's index denotes the flattened ELEMENT
+            V2 = Vars(V)
+            if isinstance(V, Vars):
+                V2.__dict__.update(V.__dict__)
+                V2.memo = {} if V.memo is not None else None      # (terms over the element are other terms)
+                V2.cmemo = None
+            V2[c[1]] = univ
+            return for_all(univ, build_cond(c[2], V2))
         return for_all(univ, build_cond(c[2], V))
     if k == "const":
         return bool(c[1])
